@@ -2,6 +2,7 @@ package rules
 
 import (
 	"go/token"
+	"go/types"
 
 	"golang.org/x/tools/go/ssa"
 
@@ -135,4 +136,81 @@ func c10CheckThenAct(c *Ctx, p *core.Prog, fns []*ssa.Function, la *lockAnalysis
 		}
 	}
 	r.Extra("check_then_act_sites", n)
+}
+
+// escape-from-lock: a map (or slice) field read while its mutex is held is only a reference: iterating,
+// indexing or updating it after the mutex has been released races with writers exactly as if no lock had
+// been taken (the runtime aborts with "concurrent map iteration and map write").
+func c10EscapeFromLock(c *Ctx, p *core.Prog, fns []*ssa.Function, la *lockAnalysis) {
+	r := c.R
+	r.Rule("escape-from-lock", "a map or slice loaded from a field of a mutex-carrying struct while one of the struct's mutexes is held is ranged over, indexed, looked up or updated only while that mutex is still held (copy the contents under the lock instead of keeping the reference)")
+	n := 0
+	for _, fn := range fns {
+		seq := 0
+		for _, b := range fn.Blocks {
+			for _, in := range b.Instrs {
+				ld, ok := in.(*ssa.UnOp)
+				if !ok || ld.Op != token.MUL {
+					continue
+				}
+				fa, ok := ld.X.(*ssa.FieldAddr)
+				if !ok {
+					continue
+				}
+				T := core.NamedOf(fa.X.Type())
+				if T == nil || len(structMutexes(T)) == 0 {
+					continue
+				}
+				switch ld.Type().Underlying().(type) {
+				case *types.Map, *types.Slice:
+				default:
+					continue
+				}
+				heldAt := la.at(fn, ld)
+				mname, held := heldAny(heldAt, T, false)
+				if !held {
+					continue // unguarded reads are the guarded-by rule's business
+				}
+				n++
+				seq++
+				key := core.FnName(fn) + "|" + T.Obj().Name() + "." + core.FieldName(fa.X.Type(), fa.Field) + sprintf("#%d", seq)
+				bad := ""
+				for _, ref := range core.Referrers(ld) {
+					use, isInstr := ref.(ssa.Instruction)
+					if !isInstr {
+						continue
+					}
+					switch u := ref.(type) {
+					case *ssa.Range, *ssa.Lookup, *ssa.MapUpdate, *ssa.IndexAddr, *ssa.Index:
+						_ = u
+					case *ssa.Call:
+						if !(core.IsBuiltinCall(&u.Call, "delete") || core.IsBuiltinCall(&u.Call, "len")) {
+							continue
+						}
+					default:
+						continue
+					}
+					if _, still := heldAny(la.at(fn, use), T, false); !still {
+						bad = "used at " + p.Pos(use.Pos()) + " after " + T.Obj().Name() + "." + mname + " was released"
+					}
+					// a Range is consumed by Next instructions: they must be under the lock too
+					if rg, ok := ref.(*ssa.Range); ok {
+						for _, r2 := range core.Referrers(rg) {
+							if nx, ok := r2.(*ssa.Next); ok {
+								if _, still := heldAny(la.at(fn, nx), T, false); !still {
+									bad = "iterated at " + p.Pos(rg.Pos()) + " after " + T.Obj().Name() + "." + mname + " was released"
+								}
+							}
+						}
+					}
+				}
+				if bad == "" {
+					r.OK("escape-from-lock", key, p.Pos(ld.Pos()), "used only while the lock is held")
+				} else {
+					r.Violate("escape-from-lock", key, p.Pos(ld.Pos()), "the reference read under the lock is "+bad+": concurrent writers modify the same map/slice (data race; the runtime aborts on concurrent map iteration and write)")
+				}
+			}
+		}
+	}
+	r.Extra("guarded_reference_loads", n)
 }
